@@ -200,9 +200,12 @@ def run_object(case, all_sync):
         return d
     p.read_nonblocking = rn
     logged = []
+    wrong_type = []
 
     class LogRec(object):
         def write(self, s_):
+            if (encoding is not None) != isinstance(s_, str):
+                wrong_type.append(type(s_).__name__)       # the log gets the string type the API uses
             logged.append(_t(s_))
 
         def flush(self):
@@ -293,7 +296,7 @@ def run_object(case, all_sync):
                 c()
             except Exception:
                 pass
-    return dict(recs=recs, log=log, fin=fin, logged=logged)
+    return dict(recs=recs, log=log, fin=fin, logged=logged, wrong_type=wrong_type)
 
 
 FIELDS = ('out', 'before', 'after', 'match', 'buffer', 'match_index')
@@ -589,6 +592,8 @@ def run(ctx):
             common.report(ctx, KNOWN_EOF, 'an EOF was delivered while no awaited call was outstanding; afterwards the awaited history differs from the twin '
                           '(%s)' % (d[1] if d else [r['out'] for r in a['recs'] if r['out'].startswith('EXC')][0]), dict(case=c))
             continue
+        if d is None and a.get('wrong_type'):
+            d = (len(a['recs']) - 1, 'logfile_read type', a['wrong_type'][0], 'str' if c.get('encoding') else 'bytes')
         if d is None and not c.get('encoding'):
             # logfile_read on the awaited path: everything the loop or a blocking read took from the child, once, in order -
             # also what arrived while no call was outstanding
